@@ -96,6 +96,30 @@ CLAIMED["C14"] = dict(
     technique="TLA+ spec; lockstep trace validation of two implementations against one specification by TLC",
 )
 
+CLAIMED["C01"] = dict(
+    category="model_checking",
+    text="WordUniverse.tla defines the ground truth of the fixture universe (objects by set comprehension, statistics, terms; a "
+         "second dynamic-programming definition is proved equal by TLC on 2744 classes). Every specification handed back by the "
+         "search campaign (three rule databases; packs with symmetries, inferral, merged/dropped statistics, factories, iterative, "
+         "non-atom verification; 'smallest'; scripted time-slicings so that every slicing pattern is reachable) has its root "
+         "enumeration for n <= 6 and every parameter tuple judged by TLC against that truth.",
+    design_ref="DESIGN.md 3/C01",
+    note="Trusted: TLC; the fixture classes' description sent to TLA+ (prefix, patterns, alphabet, statistics) is the class itself. "
+         "Bounds: n <= 6 (2 letters) / 5 (3 letters).",
+    technique="TLA+ ground-truth specification; result validation of recorded searches by TLC; scripted clock for schedules",
+)
+CLAIMED["C02"] = dict(
+    category="model_checking",
+    text="SpecValid.tla states closedness, one-rule-per-class, genuineness (re-application of the rule's strategy and the algebra "
+         "of derived forms: equivalence, reverse, path) and productivity by the independent least fixed point of Productivity.tla "
+         "over (parent, children, shifts). Every specification of the campaign is judged twice: the raw rule list handed out by "
+         "the rule database (so duplicates cannot hide in a dictionary) and the final rules after path grouping.",
+    design_ref="DESIGN.md 3/C02",
+    note="Trusted: TLC; re-application is executed by the harness and compared by TLC. Semantic genuineness (children really "
+         "partition/factor the parent) is the strategy contract, checked for the fixture under C09.",
+    technique="TLA+ specification of validity + independent fixed point; result validation by TLC",
+)
+
 NOT_YET = {}
 
 ALL = ["C%02d" % i for i in range(1, 21)]
